@@ -16,12 +16,15 @@ package main
 
 import (
 	"bufio"
+	"bytes"
 	"context"
 	"encoding/json"
 	"flag"
 	"fmt"
 	"os"
+	"os/exec"
 	"reflect"
+	"regexp"
 	"sort"
 	"strconv"
 	"strings"
@@ -79,6 +82,11 @@ type Case struct {
 	Ext     []string          `json:"ext"`
 	K       int               `json:"k"`
 	Maps    []string          `json:"maps"`
+	Shape   string            `json:"shape"`
+	Open    []string          `json:"open"`
+	Core    []string          `json:"core"`
+	Close   []string          `json:"close"`
+	N       int               `json:"n"`
 }
 
 var typeByName = map[string]seq.TokenizerType{
@@ -282,11 +290,15 @@ type sigRec struct {
 }
 
 var (
-	sigMu sync.Mutex
-	sigs  = map[string]*sigRec{}
+	sigMu  sync.Mutex
+	sigs   = map[string]*sigRec{}
+	digits = regexp.MustCompile(`[0-9]+`)
 )
 
 func reportOutcome(n int, fn, mp, q, outcome, msg string, allowed []string) {
+	if len(q) > 200 {
+		q = fmt.Sprintf("%s...(%d bytes)...%s", q[:40], len(q), q[len(q)-20:])
+	}
 	m := msg
 	if i := strings.Index(m, "&{"); i >= 0 { // "BUG: lexer is not end: {..state..}" and similar: keep the stable part
 		m = m[:i]
@@ -294,7 +306,7 @@ func reportOutcome(n int, fn, mp, q, outcome, msg string, allowed []string) {
 	if len(m) > 80 {
 		m = m[:80]
 	}
-	key := fn + "|" + mp + "|" + outcome + "|" + m
+	key := fn + "|" + mp + "|" + outcome + "|" + digits.ReplaceAllString(m, "N")
 	sigMu.Lock()
 	defer sigMu.Unlock()
 	r := sigs[key]
@@ -435,6 +447,140 @@ func (w *worker) runTot(n int, c *Case, st *stats) {
 	rec(spell(c.Pre), c.K)
 }
 
+// Deep cases: open^n core close^n (nesting-depth classes).  A stack overflow is a fatal error of the Go
+// runtime that no recover() can stop, so every deep case runs in a child process (this binary with
+// -deepchild): the child announces each call before making it; if the child dies, the announced call gets
+// outcome "fatal" and a new child continues with the next call.
+type deepCall struct {
+	fn, mp string
+}
+
+func deepCalls(c *Case) []deepCall {
+	var out []deepCall
+	for _, mk := range c.Maps {
+		for _, fn := range fns {
+			out = append(out, deepCall{fn, mk})
+		}
+	}
+	return append(out, deepCall{"ParseAggregationFilter", "-"})
+}
+
+func deepString(c *Case) string {
+	return strings.Repeat(spell(c.Open), c.N) + spell(c.Core) + strings.Repeat(spell(c.Close), c.N)
+}
+
+// deepChild runs the calls from index `from` on and prints {"call":i} before and {"done":i,...} after each.
+func deepChild(from int, hang time.Duration) {
+	sc := bufio.NewScanner(os.Stdin)
+	sc.Buffer(make([]byte, 1<<20), 1<<26)
+	if !sc.Scan() {
+		os.Exit(3)
+	}
+	c := &Case{}
+	if err := json.Unmarshal(sc.Bytes(), c); err != nil {
+		os.Exit(3)
+	}
+	q := deepString(c)
+	w := &worker{}
+	go func() {
+		for {
+			time.Sleep(200 * time.Millisecond)
+			if j := w.cur.Load(); j != nil && time.Now().UnixNano()-j.start > int64(hang) {
+				emit(map[string]any{"hang": true})
+				os.Exit(5)
+			}
+		}
+	}()
+	for i, dc := range deepCalls(c) {
+		if i < from {
+			continue
+		}
+		emit(map[string]any{"call": i})
+		var m seq.Mapping
+		if dc.mp != "-" {
+			var err error
+			if m, err = walkMapping(dc.mp); err != nil {
+				os.Exit(3)
+			}
+		}
+		_, outcome, msg := w.call(0, dc.fn, dc.mp, q, parseWith(dc.fn, q, m))
+		emit(map[string]any{"done": i, "outcome": outcome, "msg": msg})
+	}
+}
+
+var fatalLine = regexp.MustCompile(`(?m)^(fatal error|panic): (.*)$`)
+
+func (w *worker) runDeep(n int, c *Case, st *stats, hang time.Duration) {
+	calls := deepCalls(c)
+	line, _ := json.Marshal(c)
+	desc := fmt.Sprintf("%q x %d + %q + %q x %d", spell(c.Open), c.N, spell(c.Core), spell(c.Close), c.N)
+	atomic.AddInt64(&st.inputs, 1)
+	accepted := false
+	for from := 0; from < len(calls); {
+		cmd := exec.Command(os.Args[0], "-deepchild", "-from", strconv.Itoa(from), "-hang", hang.String())
+		cmd.Stdin = bytes.NewReader(append(line, '\n'))
+		var stdout, stderr bytes.Buffer
+		cmd.Stdout, cmd.Stderr = &stdout, &stderr
+		err := cmd.Run()
+		last, finished := -1, -1
+		hung := false
+		for _, ln := range strings.Split(stdout.String(), "\n") {
+			var o struct {
+				Call    *int   `json:"call"`
+				Done    *int   `json:"done"`
+				Outcome string `json:"outcome"`
+				Msg     string `json:"msg"`
+				Hang    bool   `json:"hang"`
+			}
+			if json.Unmarshal([]byte(ln), &o) != nil {
+				continue
+			}
+			switch {
+			case o.Call != nil:
+				last = *o.Call
+			case o.Done != nil:
+				finished = *o.Done
+				atomic.AddInt64(&st.evals, 1)
+				if o.Outcome == "ok" {
+					accepted = true
+				}
+				if !allowedHas(c.Allowed, o.Outcome) {
+					reportOutcome(n, calls[finished].fn, calls[finished].mp, desc, o.Outcome, o.Msg, c.Allowed)
+				}
+			case o.Hang:
+				hung = true
+			}
+		}
+		if err == nil && finished == len(calls)-1 {
+			break
+		}
+		if last < 0 || last == finished {
+			emit(map[string]any{"infra": fmt.Sprintf("deep child failed outside a call: %v: %s", err, tail(stderr.String(), 300))})
+			os.Exit(3)
+		}
+		// the child died (or hung) inside call `last`
+		atomic.AddInt64(&st.evals, 1)
+		outcome, msg := "fatal", "process died: "+fmt.Sprint(err)
+		if hung {
+			outcome, msg = "hang", fmt.Sprintf("no return within %s", hang)
+		} else if m := fatalLine.FindStringSubmatch(stderr.String()); m != nil {
+			msg = m[1] + ": " + m[2]
+		}
+		reportOutcome(n, calls[last].fn, calls[last].mp, desc, outcome, msg, c.Allowed)
+		from = last + 1
+	}
+	if accepted {
+		atomic.AddInt64(&st.nontrivial, 1)
+	}
+}
+
+func tail(s string, n int) string {
+	if len(s) > n {
+		return s[len(s)-n:]
+	}
+	return s
+}
+
 // ---------------------------------------------------------------- store mode
 type storeSet struct {
 	envs map[string]*env.Env
@@ -505,8 +651,14 @@ func main() {
 	progress := flag.Bool("progress", false, "print begin/end markers, run serially")
 	nw := flag.Int("workers", 1, "parallel workers")
 	store := flag.Bool("store", false, "send tot prefixes through GrpcV1.Search of a real store")
-	hang := flag.Duration("hang", 5*time.Second, "a single parser call running longer than this is a hang")
+	hang := flag.Duration("hang", 20*time.Second, "a single parser call running longer than this is a hang")
+	child := flag.Bool("deepchild", false, "internal: run one deep case read from stdin")
+	from := flag.Int("from", 0, "internal: first call index of the deep child")
 	flag.Parse()
+	if *child {
+		deepChild(*from, *hang)
+		return
+	}
 	if *progress || *store {
 		*nw = 1
 	}
@@ -536,6 +688,8 @@ func main() {
 					w.runStore(it.n, it.c, ss, &st)
 				case it.c.Kind == "tot":
 					w.runTot(it.n, it.c, &st)
+				case it.c.Kind == "deep":
+					w.runDeep(it.n, it.c, &st, *hang)
 				default:
 					emit(map[string]any{"infra": "unknown case kind " + it.c.Kind})
 					os.Exit(3)
@@ -546,7 +700,28 @@ func main() {
 			}
 		}()
 	}
-	// watchdog: the specification says every call returns; one that does not is reported and ends the run
+	var nread int64
+	var once sync.Once
+	finish := func(aborted bool) {
+		once.Do(func() {
+			sigMu.Lock()
+			keys := make([]string, 0, len(sigs))
+			for k := range sigs {
+				keys = append(keys, k)
+			}
+			sort.Strings(keys)
+			for _, k := range keys {
+				emit(sigs[k])
+			}
+			sigMu.Unlock()
+			emit(map[string]any{"n": 0, "what": "info", "shape_equal": atomic.LoadInt64(&st.shapeEq),
+				"shape_diff": atomic.LoadInt64(&st.shapeDiff), "aborted_at_hang": aborted})
+			emit(map[string]any{"summary": true, "cases": atomic.LoadInt64(&nread), "evals": atomic.LoadInt64(&st.evals),
+				"nontrivial": atomic.LoadInt64(&st.nontrivial), "corpora": atomic.LoadInt64(&st.inputs)})
+		})
+	}
+	// watchdog: the specification says every call returns. One that does not cannot be stopped, so it is
+	// reported (outcome "hang") and the run ends there: what was checked so far is still reported.
 	go func() {
 		for {
 			time.Sleep(200 * time.Millisecond)
@@ -554,7 +729,9 @@ func main() {
 			for _, w := range workers {
 				if j := w.cur.Load(); j != nil && now-j.start > int64(*hang) {
 					fmt.Fprintf(os.Stderr, "HANG n=%d fn=%s map=%s q=%s\n", j.n, j.fn, j.mp, strconv.QuoteToASCII(j.q))
-					os.Exit(4)
+					reportOutcome(j.n, j.fn, j.mp, j.q, "hang", fmt.Sprintf("no return within %s", *hang), []string{"ok", "err"})
+					finish(true)
+					os.Exit(0)
 				}
 			}
 		}
@@ -574,21 +751,13 @@ func main() {
 		}
 		ch <- item{n, c}
 		n++
+		atomic.StoreInt64(&nread, int64(n))
 	}
 	close(ch)
 	wg.Wait()
 	for _, e := range ss.envs {
 		e.Close()
 	}
-	keys := make([]string, 0, len(sigs))
-	for k := range sigs {
-		keys = append(keys, k)
-	}
-	sort.Strings(keys)
-	for _, k := range keys {
-		emit(sigs[k])
-	}
-	emit(map[string]any{"n": 0, "what": "info", "shape_equal": st.shapeEq, "shape_diff": st.shapeDiff})
-	emit(map[string]any{"summary": true, "cases": n, "evals": st.evals, "nontrivial": st.nontrivial, "corpora": st.inputs,
-		"shape_equal": st.shapeEq, "shape_diff": st.shapeDiff})
+	atomic.StoreInt64(&nread, int64(n))
+	finish(false)
 }
